@@ -1,8 +1,10 @@
 #!/usr/bin/env python3
-"""Filters the race detector's reports of a `verifsim racerun` (race + simrace build) down to
-data races of the transaction pool's own code: both accesses must have a frame in package
-service (TxPool / simpleContainer paths), and neither access itself may be harness code.
-usage: racefilter.py <race.log> <replay-out.json>   -> prints summary; exit 1 if a pool race remains."""
+"""Filters the race detector's reports of a `verifsim racerun` (race + simrace build) down to data
+races of the code under test: the stacks of BOTH accesses must contain a frame of one of the
+harness's RaceFrames packages (printed by racerun as `RACEFRAMES [...]`), reached from a scheduler
+task, and neither access itself may be harness or scheduler code.
+usage: racefilter.py <race.log> <replay-out.json>   -> prints summary; exit 1 if such a race remains,
+2 if the log is not from a race-mode run."""
 import json, re, sys
 log, out = sys.argv[1], sys.argv[2]
 txt = open(log, errors='replace').read()
@@ -11,7 +13,15 @@ cur = None
 found = []
 total = 0
 racemode = 'racemode=true' in txt
-pos = 0
+m = re.search(r'^RACEPROP (\w+)$', txt, re.M)
+prop = m.group(1) if m else "C17"
+m = re.search(r'^RACEFRAMES (\[.*\])$', txt, re.M)
+frames_wanted = json.loads(m.group(1)) if m else ["/src/service."]
+# drivers compiled into the packages under test and logging internals are not the code under test
+def is_target(f):
+    if 'zzverif' in f or '.Sim' in f:
+        return False
+    return any(w in f for w in frames_wanted)
 for m in re.finditer(r'^RACEPLAN (\d+) (\{[^\n]*\})$|WARNING: DATA RACE\n(.*?)\n==================', txt, re.S | re.M):
     if m.group(1) is not None:
         cur = int(m.group(1)); plans[cur] = m.group(2); continue
@@ -26,24 +36,25 @@ for m in re.finditer(r'^RACEPLAN (\d+) (\{[^\n]*\})$|WARNING: DATA RACE\n(.*?)\n
         frames = re.findall(r'^\s+([\w./*()\[\]·-]+)\(\)\s*$', b, re.M)
         if not frames:
             ok = False; break
-        top = frames[0]
-        # skip runtime/atomic shims
-        nonrt = [f for f in frames if not f.startswith('runtime.') and not f.startswith('sync/atomic.')]
-        top = nonrt[0] if nonrt else top
+        nonrt = [f for f in frames if not f.startswith('runtime.') and not f.startswith('sync/atomic.') and not f.startswith('sync.')]
+        top = nonrt[0] if nonrt else frames[0]
         if '/zzverif/' in top:
             ok = False; break
-        if not any('/src/service.' in f and 'zzverif' not in f and 'Sim' not in f for f in frames):
+        tf = [f for f in frames if is_target(f)]
+        if not tf:
             ok = False; break
-        svc = [f for f in frames if '/src/service.' in f][0]
-        tops.append(svc.split('/src/')[-1])
+        tops.append(tf[0].split('/src/')[-1])
     if ok:
         found.append((cur, ' <-> '.join(sorted(tops)), body))
-print("race oracle: racemode=%s plans=%d reports=%d pool_races=%d" % (racemode, len(plans), total, len(found)))
+print("race oracle: property=%s racemode=%s plans=%d reports=%d races_in_code_under_test=%d" % (prop, racemode, len(plans), total, len(found)))
 if found:
     planidx, cls, body = found[0]
-    rep = {"property": "C17", "race": True, "class": "C17/data-race/" + cls, "detail": body[:4000], "plan": json.loads(plans.get(planidx, "{}")), "shrunk": False}
+    rep = {"property": prop, "race": True, "class": prop + "/data-race/" + cls, "detail": body[:6000], "plan": json.loads(plans.get(planidx, "{}")), "shrunk": False,
+           "all_classes": sorted(set(c for _, c, _ in found))}
     json.dump(rep, open(out, 'w'), indent=1)
-    print("pool data race: %s (plan %s)" % (cls, planidx))
+    for c in sorted(set(c for _, c, _ in found)):
+        print("data race: %s" % c)
+    print("first in plan %s" % planidx)
     sys.exit(1)
 if not racemode or not plans:
     sys.exit(2)
